@@ -438,7 +438,7 @@ def handler_contract(op, extra_req=(), noreply=False, reply_extra='', want=True)
 NAME_ERR_SPLICE = None
 
 
-VERIFIED_LATER = set(os.environ.get('SRV_EXT', 'setxattr,ioctl,batch_forget,setupmapping,removemapping').split(','))
+VERIFIED_LATER = set(os.environ.get('SRV_EXT', 'setxattr,ioctl').split(','))
 
 
 def EXT(name):
@@ -668,9 +668,36 @@ impl<'a, S: BitmapSlice> ZeroCopyReader for ZcReader<'a, S> { }
                 }''')]),
         Fn(SYNC, SRV, 'setxattr', requires=handler_contract('setxattr'), external_body=EXT('setxattr'), splices=[E0], props=['C01']),
         Fn(SYNC, SRV, 'ioctl', requires=handler_contract('ioctl'), external_body=EXT('ioctl'), splices=[E0], props=['C01']),
-        Fn(SYNC, SRV, 'batch_forget', requires=handler_contract('batch_forget', noreply=True), external_body=EXT('batch_forget'), splices=[E0], props=['C01']),
-        Fn(SYNC, SRV, 'setupmapping', requires=vu_contract('setupmapping'), sig_subst=SIGREQ, external_body=EXT('setupmapping'), splices=[E0], props=['C01']),
-        Fn(SYNC, SRV, 'removemapping', requires=vu_contract('removemapping'), sig_subst=SIGREQ, external_body=EXT('removemapping'), splices=[E0], props=['C01']),
+        Fn(SYNC, SRV, 'batch_forget', requires=handler_contract('batch_forget', noreply=True), external_body=EXT('batch_forget'), props=['C01'], canary=not EXT('batch_forget'),
+           splices=[E0, ('^', 'after', 'proof { assert((1u32 << 20) == 0x10_0000u32) by (bit_vector); }'),
+                    ('let mut requests = Vec::with_capacity(count as usize);', 'after', 'let ghost ctx0 = ctx;'),
+                    ('for _i in 0..count {', 'replace', '''for _i in iter: 0..count
+            invariant
+                requests@.len() == _i, rem0.len() >= 8, convs_ok::<F>(), count as int * 16 <= 0x10_1000,
+                ctx.r.rem@ == rem0.skip(8 + 16 * (_i as int)),
+                rem0.len() >= 8 + 16 * (_i as int),
+                ctx.w == ctx0.w, ctx.in_header == ctx0.in_header, ctx.context == ctx0.context,
+                forall|j: int| 0 <= j < _i ==> requests@[j] == (ino_of::<F>(forget_one_at(rem0, j).nodeid), forget_one_at(rem0, j).nlookup),
+        {
+            proof { if ctx.r.rem@.len() >= 16 { assert(ctx.r.rem@.subrange(0, 16) =~= rem0.subrange(8 + 16 * (_i as int), 8 + 16 * (_i as int) + 16)); assert(ctx.r.rem@.skip(16) =~= rem0.skip(8 + 16 * (_i as int + 1))); } }'''),
+                    ('|f|', 'closure', '|f: ForgetOne| -> (q: (F::Inode, u64)) ensures q == (ino_of::<F>(f.nodeid), f.nlookup)'),
+                    ('self.fs.batch_forget(ctx.context(), requests);', 'before',
+                     'proof { let a = <BatchForgetIn as ByteValued>::sdecode(rem0.subrange(0, 8)); assert(requests@ =~= Seq::new(a.count as nat, |i: int| (ino_of::<F>(forget_one_at(rem0, i).nodeid), forget_one_at(rem0, i).nlookup))); }')]),
+        Fn(SYNC, SRV, 'setupmapping', requires=vu_contract('setupmapping'), sig_subst=SIGREQ, external_body=EXT('setupmapping'), splices=[E0, ('^', 'after', 'proof { reveal(errno_reply); }')], props=['C01'], canary=not EXT('setupmapping')),
+        Fn(SYNC, SRV, 'removemapping', requires=vu_contract('removemapping'), sig_subst=SIGREQ, external_body=EXT('removemapping'), props=['C01'], canary=not EXT('removemapping'),
+           splices=[E0, ('^', 'after', 'proof { assert((1u32 << 20) == 0x10_0000u32) by (bit_vector); reveal(errno_reply); }'),
+                    ('let mut requests = Vec::with_capacity(count as usize);', 'after', 'let ghost ctx0 = ctx;'),
+                    ('for _i in 0..count {', 'replace', '''for _i in iter: 0..count
+                invariant
+                    requests@.len() == _i, rem0.len() >= 4, convs_ok::<F>(), count as int * 16 <= 0x10_0000,
+                    ctx.r.rem@ == rem0.skip(4 + 16 * (_i as int)),
+                    rem0.len() >= 4 + 16 * (_i as int),
+                    ctx.w == ctx0.w, ctx.in_header == ctx0.in_header, ctx.context == ctx0.context,
+                    forall|j: int| 0 <= j < _i ==> requests@[j] == rm_one_at(rem0, j),
+            {
+                proof { if ctx.r.rem@.len() >= 16 { assert(ctx.r.rem@.subrange(0, 16) =~= rem0.subrange(4 + 16 * (_i as int), 4 + 16 * (_i as int) + 16)); assert(ctx.r.rem@.skip(16) =~= rem0.skip(4 + 16 * (_i as int + 1))); } }'''),
+                    ('match self\n                .fs\n                .removemapping(', 'before',
+                     'proof { let a = <RemovemappingIn as ByteValued>::sdecode(rem0.subrange(0, 4)); assert(requests@ =~= Seq::new(a.count as nat, |i: int| rm_one_at(rem0, i))); }')]),
         Fn(SYNC, SRV, 'do_readdir', requires=handler_contract('readdir', want=False), external_body=True, props=['C01']),
         Fn(SYNC, SRV, 'readdir', requires=handler_contract('readdir', want=False), props=['C01']),
         Fn(SYNC, SRV, 'readdirplus', requires=handler_contract('readdir', want=False), props=['C01']),
